@@ -819,7 +819,7 @@ func (x *Exec) next(fr *Frame, st *State, v *ssa.Next) Val {
 	inDom := sAnd(sNot(sEq(m.S, "0")), sSel(dom, kk))
 	st.assume(sImp(okc, sAnd(inDom, sNot(sSel(vis, kk)))))
 	// exhausted: every key of the current domain has been visited
-	qv := "qk"
+	qv := "qk?m" // contains ?: render-time pattern facts skip terms with bound variables
 	st.assume(sImp(sNot(okc), sOr(sEq(m.S, "0"), fmt.Sprintf("(forall ((%s %s)) (=> (select %s %s) (select %s %s)))", qv, ks, dom, qv, vis, qv))))
 	st.visitedKey = kk
 	st.visited[rg] = sIte(okc, sSto(vis, kk, "true"), vis)
